@@ -1,5 +1,6 @@
 import Astisub.Driver.Ops
 import Astisub.Driver.Ts
+import Astisub.Driver.IO
 
 open Astisub Astisub.Driver Astisub.Proto
 
@@ -11,6 +12,7 @@ def handleLine (line : String) : Verdict :=
   | op :: args =>
     if op.startsWith "ops." then handleOps3 op args impl
     else if op.startsWith "ts." then handleTs op args impl
+    else if op.startsWith "io." || op == "lib.scanner" then handleIO op args impl
     else .bad s!"unknown stream {op}"
 
 structure Stats where
